@@ -209,7 +209,7 @@ def run_lin_job(job, scratch):
                 ev = next((c for c in calls if c["i"] == want), ev)
             else:
                 ev = ev.get("call", ev)
-            rules = ["C03:history-has-no-linearization"]
+            rules = [",".join(["C03"] + job.get("also", [])) + ":history-has-no-linearization"]
         reset = evs[0]
         viols.append({"line": stuck, "seg": sg, "rules": rules, "ev": "inv", "proc": ev.get("proc", ""), "job": job["name"],
                       "driver_cmd": job["driver"], "event": ev if isinstance(ev, dict) else {}, "driver": reset.get("driver", ""),
@@ -580,6 +580,10 @@ def plan(prop, tier, seed, known):
         for i in range(n):
             jobs.append(seq_job("stale%d" % i, seed * 100 + i, "stale", 4 if q else 8, 250 if q else 400, av))
         jobs.append(probe_job(prop, av))
+        # a directory handle going stale while a CREATE/MKDIR/SYMLINK through it is between its retries (directed schedules)
+        jobs.append({"name": "wingetalloc", "kind": "lin", "also": ["C08"], "driver": ["windows", "-part", "-1", "-parts", "1"]})
+        for k in ([(seed * 3 + j) % 32 for j in range(2)] if q else range(0, 32, 2)):
+            jobs.append({"name": "win%d" % k, "kind": "lin", "also": ["C08"], "driver": ["windows", "-part", str(k), "-parts", "32"]})
     elif prop == "C12":
         n = 4 if q else 32
         for i in range(n):
@@ -653,6 +657,7 @@ def plan(prop, tier, seed, known):
         sel = range(parts) if not q else [(seed * 4 + k) % parts for k in range(4)]
         for k in sel:
             jobs.append({"name": "win%d" % k, "kind": "lin", "driver": ["windows", "-part", str(k), "-parts", str(parts)]})
+        jobs.append({"name": "wingetalloc", "kind": "lin", "driver": ["windows", "-part", "-1", "-parts", "1"]})
     elif prop == "C16":
         jobs.append({"name": "xdrvec", "kind": "xdr", "depth": 3 if q else 5})
     elif prop == "C11":
